@@ -167,6 +167,22 @@ func TestVerif_C23_Tenant(t *testing.T) {
 					} else {
 						emit("search", outcome, nil, nil)
 					}
+					// the same search under match-count and display limits (other paths through the document
+					// loop: skipping the rest of a repository, stopping early): nothing may leak either
+					for _, lo := range []zoekt.SearchOptions{
+						{ShardRepoMaxMatchCount: 1}, {ShardRepoMaxMatchCount: 2, ChunkMatches: true}, {ShardMaxMatchCount: 1},
+						{TotalMaxMatchCount: 1}, {MaxDocDisplayCount: 1}, {ShardRepoMaxMatchCount: 1, ShardMaxMatchCount: 3},
+					} {
+						if rng.Intn(2) == 0 {
+							continue
+						}
+						o := lo
+						if res, outcome := search(&o); res != nil {
+							emit("limited", outcome, c23FromResult(res), nil)
+						} else if outcome != "ok" {
+							emit("limited", outcome, nil, nil)
+						}
+					}
 					// StreamSearch: every streamed event separately
 					if kind == "dir" {
 						p := verifkit.Catch(func() {
